@@ -232,6 +232,10 @@ structure BIter where
   reverse : Bool
   /-- `none`: the badger iterator is exhausted (`item == nil`). -/
   pos : Option Nat
+  /-- not positioned yet (set by the constructor, cleared by `Rewind`/`Seek`). -/
+  fresh : Bool
+  /-- positioned before the first entry by a reverse `Seek` with an empty target. -/
+  done : Bool
   deriving Repr
 
 /-- number of entries with key ≤ `k` (they form a prefix of a sorted list). -/
@@ -263,12 +267,14 @@ def BIter.cur (it : BIter) : Option Entry :=
   | some i => it.all[i]?
   | none => none
 
-/-- `goBadgerDBIt.Valid`: underlying valid, `checkKey`, and the key strictly below the
-(exclusive) end bound. -/
+/-- `goBadgerDBIt.Valid`: not fresh, not done, underlying valid, `checkKey`, and the key strictly
+below the (exclusive) end bound. -/
 def BIter.valid (it : BIter) : Bool :=
-  match it.cur with
-  | some e => checkKey it.start it.end_ e.1 && belowUpper it.end_ e.1
-  | none => false
+  if it.fresh || it.done then false
+  else
+    match it.cur with
+    | some e => checkKey it.start it.end_ e.1 && belowUpper it.end_ e.1
+    | none => false
 
 def BIter.key (it : BIter) : Bytes :=
   match it.cur with
@@ -298,34 +304,43 @@ def BIter.seekLast (it : BIter) : BIter :=
   | some e, some c => if c.1 = e then it1.uNext else it1
   | _, _ => it1
 
+/-- `it.fresh, it.done = false, false`. -/
+def BIter.clear (it : BIter) : BIter := { it with fresh := false, done := false }
+
 /-- `goBadgerDBIt.Rewind`. -/
 def BIter.rewind (it : BIter) : BIter × Bool :=
-  let it' := if it.reverse then it.seekLast else it.bSeek it.start
+  let it' := if it.reverse then it.clear.seekLast else it.clear.bSeek it.start
   (it', it'.valid)
 
-/-- `GoBadgerDB.Iterator`: the constructor ends with `Rewind()` — a fresh badger iterator is
-already positioned (unlike `goLevelDBIt`, which starts before the first entry). -/
+/-- `GoBadgerDB.Iterator`: the constructor leaves the iterator unpositioned (`fresh`). -/
 def BIter.mk' (m : Map) (start : Bytes) (end_ : Option Bytes) (reverse : Bool) : BIter :=
-  let it : BIter := { all := m, start := start, end_ := effEnd start end_, reverse := reverse, pos := none }
-  it.rewind.1
+  { all := m, start := start, end_ := effEnd start end_, reverse := reverse, pos := none,
+    fresh := true, done := false }
 
-/-- `goBadgerDBIt.Seek`: the target is clamped into `[start, end)`. -/
+/-- `goBadgerDBIt.Seek`: the target is clamped into `[start, end)`; a reverse seek with an empty
+target is "below every key" (`done`). -/
 def BIter.seek (it : BIter) (k : Bytes) : BIter × Bool :=
-  let it' :=
-    if it.reverse then
-      match it.end_ with
-      | some e => if ble e k then it.seekLast else it.bSeek k
-      | none => it.bSeek k
-    else if blt k it.start then it.bSeek it.start else it.bSeek k
-  (it', it'.valid)
-
-/-- `goBadgerDBIt.Next`: false on an exhausted iterator. -/
-def BIter.next (it : BIter) : BIter × Bool :=
-  match it.pos with
-  | none => (it, false)
-  | some _ =>
-    let it' := it.uNext
+  if it.reverse && k.isEmpty then ({ it.clear with done := true }, false)
+  else
+    let it' :=
+      if it.reverse then
+        match it.end_ with
+        | some e => if ble e k then it.clear.seekLast else it.clear.bSeek k
+        | none => it.clear.bSeek k
+      else if blt k it.start then it.clear.bSeek it.start else it.clear.bSeek k
     (it', it'.valid)
+
+/-- `goBadgerDBIt.Next`: the first call on a fresh iterator is `Rewind` (in either direction);
+false when done or exhausted. -/
+def BIter.next (it : BIter) : BIter × Bool :=
+  if it.fresh then it.rewind
+  else if it.done then (it, false)
+  else
+    match it.pos with
+    | none => (it, false)
+    | some _ =>
+      let it' := it.uNext
+      (it', it'.valid)
 
 /-- the entries visited by `for ; it.Valid(); it.Next()` on a badger iterator. -/
 def BIter.drain : Nat → BIter → List Entry
